@@ -20,12 +20,24 @@ F0 = 193.1e12
 GRID = 6.25e9
 
 
-def fidx(f):
-    """frequency -> 6.25 GHz index (truncation toward zero after removing float noise): a unit conversion"""
-    return math.trunc(round((f - F0) / GRID, 6))
+def fidx(f, edge='lo'):
+    """band edge (Hz) -> 6.25 GHz index by the PROPERTY's rule: slot n (centre 193.1 THz + n * 6.25 GHz) is inside a
+    band iff its centre lies in [f_min, f_max]: lowest index = ceil for a lower edge, highest = floor for an upper one
+    (float noise removed first)"""
+    x = round((f - F0) / GRID, 6)
+    return math.ceil(x) if edge == 'lo' else math.floor(x)
 
 
-def freq(n):
+def freq(n, edge=None):
+    """frequency of index n; as a band edge it is placed OFF the grid, three quarters of a slot outwards, in the sign
+    combinations where the code's int() truncation agrees with the property's rule (lower edge below 193.1 THz, upper
+    edge above it); the other band edges are placed exactly on the grid (see DESIGN, C15 domain)"""
+    if edge == 'lo' and n < 0:
+        return F0 + (n - 0.75) * GRID
+    if edge == 'hi' and n > 0:
+        return F0 + (n + 0.75) * GRID
+    if edge in ('lo', 'hi'):
+        return F0 + n * GRID            # exactly on the grid (exact in double precision at these magnitudes)
     return F0 + n * GRID + (0.25 * GRID if n > 0 else -0.25 * GRID if n < 0 else 0.0)
 
 
@@ -55,12 +67,12 @@ def project(name, net, oms_list, expect=None):
                                rev=pos[id(o.reversed_oms)] if getattr(o, 'reversed_oms', None) is not None else 0))
         bm = o.spectrum_bitmap
         rec['maps'].append(dict(runs=runs_of(bm), n=len(bm.bitmap), nmin=bm.n_min, nmax=bm.n_max))
-        amps = [[[fidx(b['f_min']), fidx(b['f_max'])] for b in sorted(e.params.bands, key=lambda x: x['f_min'])]
+        amps = [[[fidx(b['f_min'], 'lo'), fidx(b['f_max'], 'hi')] for b in sorted(e.params.bands, key=lambda x: x['f_min'])]
                 for e in o.el_list if isinstance(e, (Edfa, Multiband_amplifier))]
         rec['amps'].append(amps)
     for n in nodes:
         if isinstance(n, (Edfa, Multiband_amplifier)):
-            allb += [[fidx(b['f_min']), fidx(b['f_max'])] for b in n.params.bands]
+            allb += [[fidx(b['f_min'], 'lo'), fidx(b['f_max'], 'hi')] for b in n.params.bands]
     rec['ext'] = [min(b[0] for b in allb), max(b[1] for b in allb)]
     for (a, b, must) in expect or []:
         rec['expect'].append({'from': ix[a], 'to': ix[b], 'must': [ix[u] for u in must]})
@@ -162,7 +174,7 @@ class BandBench:
                 raise Machinery(f'band bench expects booster+preamp per OMS, got {len(edfas)}')
             for e, amp in zip(edfas, amps):
                 e.params = copy.copy(e.params)
-                e.params.bands = [{'f_min': freq(lo), 'f_max': freq(hi)} for lo, hi in amp]
+                e.params.bands = [{'f_min': freq(lo, 'lo'), 'f_max': freq(hi, 'hi')} for lo, hi in amp]
         oms_list = build_oms_list(self.net, self.eq)
         return project(name, self.net, oms_list)
 
